@@ -86,6 +86,7 @@ class Evaluator:
         self.callback_params: set = set()
         self.projection_of: Dict[int, List[T]] = {}
         self.ext_calls: List[tuple] = []
+        self.instance_attrs: Dict[str, T] = {}  # optional: values of self.<name> established by __init__
         self.bindings: List[tuple] = []       # (callee, param name, argument term, caller frame func, node)
         self.shape_unpack: Dict[int, int] = {}  # id of an `x.shape` term -> number of names it was unpacked into  # ids of param-bound terms entered via combinators
 
@@ -163,6 +164,8 @@ class Evaluator:
 
     def mk_attr(self, v: T, name: str, frame: Optional[Frame] = None) -> T:
         k = v.kind
+        if k == "self" and name in self.instance_attrs:
+            return self.instance_attrs[name]
         if k == "copy":
             return self.mk_attr(v.args[0], name, frame)
         if k == "construct":
